@@ -55,7 +55,7 @@ def run_batches(cases, timeout=240, max_threads=16):
 
     def one(i):
         c = cases[i]
-        w = min(c["threads"], max_threads)
+        w = 1 if c["fp"] >= 10 else min(c["threads"], max_threads)   # baton runs are serialized: one core whatever the thread count
         with sem_lock:
             while avail[0] < w:
                 sem_lock.wait()
@@ -115,8 +115,8 @@ def run_sim_for(chk, prop, tier, seed):
     (fossil cut at a checkpoint at/below the committed frontier, rollbacks right after a collection)."""
     if prop == "C05":
         n = 60 if tier == "quick" else 1600
-        cases = make_cases(prop, tier, seed, n, variants=(0,), fp_levels=(1, 2, 3), sizes=(0, 0, 1), ckpts=[0, 1, 2, 3, 5, 7, 64, 16])
+        cases = make_cases(prop, tier, seed, n, variants=(0,), fp_levels=(1, 10, 2, 3, 10), sizes=(0, 0, 1), ckpts=[0, 1, 2, 3, 5, 7, 64, 16])
     else:
         n = 60 if tier == "quick" else 1600
-        cases = make_cases(prop, tier, seed, n, variants=(0, 0, 1), fp_levels=(2, 3, 1), sizes=(0, 0, 1), gvts=[0, 0, 20, 0, 100], ckpts=[1, 2, 3, 4, 5, 6, 7])
+        cases = make_cases(prop, tier, seed, n, variants=(0, 0, 1), fp_levels=(2, 10, 3, 1, 10), sizes=(0, 0, 1), gvts=[0, 0, 20, 0, 100], ckpts=[1, 2, 3, 4, 5, 6, 7])
     return run_sim_cases(chk, cases, timeout=300)
